@@ -199,6 +199,8 @@ func c03(r *Report) {
 		}
 	})
 
+	c03R4(r)
+
 	r.Guard("C03.R3", "any failure to read a request closes the connection", func() {
 		// every return of the reader with a nil request returns errClose
 		for k, ret := range returns(rd) {
